@@ -1312,31 +1312,41 @@ def requirements(tier):
 
 
 def _mp_selftest(ctx):
-    """Path oracle against mpmath (40 digits, frame-free formulation) on a fixed sample."""
+    """Path oracle against mpmath (50 digits, frame-free formulation) on a fixed sample that
+    includes far origins, thin and flat solids and directions close to the axis."""
     try:
         import mpmath as mp
     except ImportError:
         ctx.inconclusive_because('mpmath not importable for the oracle self-test')
         return None
-    mp.mp.dps = 40
+    mp.mp.dps = 50
     rng = np.random.Generator(np.random.PCG64(18))
     worst = 0.0
-    for _ in range(40):
+    n_cases = 120
+    for k in range(n_cases):
         a = _sphere(rng)
         b = rng.uniform(-10, 10, size=3)
-        r, h = 10.0 ** rng.uniform(-1, 1, size=2)
-        p = b + rng.normal(size=3) * (r + h)
+        r, h = 10.0 ** rng.uniform(-3, 3, size=2)
+        far = 10.0 ** rng.uniform(0, 3) if k % 3 == 0 else 1.0
+        p = b + rng.normal(size=3) * (r + h) * far
+        if k % 4 == 1:
+            p = b + a * h * rng.random() + _unit(np.cross(a, _sphere(rng))) * r * rng.random()
         n = _sphere(rng)
-        got = float(cyl.path(cyl.frame(a), b, r, h, p, n)['L'])
+        if k % 5 == 2:
+            n = _unit(a + 10.0 ** rng.uniform(-12, -3) * _sphere(rng))
+        elif k % 5 == 3:
+            tgt = b + a * h * rng.random() + _unit(np.cross(a, _sphere(rng))) * r * rng.random()
+            n = _unit(tgt - p)
+        res = cyl.path(cyl.frame(a), b, r, h, p, n)
+        got = float(res['L'])
         A = mp.matrix(a.tolist())
-        an = mp.sqrt(sum(x * x for x in A))
-        A = A / an
-        w = mp.matrix((p - b).tolist())
+        A = A / mp.sqrt(sum(x * x for x in A))
+        w = mp.matrix(p.tolist()) - mp.matrix(b.tolist())
         nn = mp.matrix(n.tolist())
-        wz, nz = sum(w[k] * A[k] for k in range(3)), sum(nn[k] * A[k] for k in range(3))
+        wz, nz = sum(w[j] * A[j] for j in range(3)), sum(nn[j] * A[j] for j in range(3))
         wp, npp = w - wz * A, nn - nz * A
         qa = sum(x * x for x in npp)
-        qb = sum(wp[k] * npp[k] for k in range(3))
+        qb = sum(wp[j] * npp[j] for j in range(3))
         qc = sum(x * x for x in wp) - mp.mpf(r) ** 2
         disc = qb * qb - qa * qc
         if disc < 0:
@@ -1345,10 +1355,13 @@ def _mp_selftest(ctx):
             lo = max(mp.mpf(0), (-qb - mp.sqrt(disc)) / qa, min(-wz / nz, (mp.mpf(h) - wz) / nz))
             hi = min((-qb + mp.sqrt(disc)) / qa, max(-wz / nz, (mp.mpf(h) - wz) / nz))
             want = max(mp.mpf(0), hi - lo) * mp.sqrt(sum(x * x for x in nn))
-        worst = max(worst, float(abs(mp.mpf(got) - want) / mp.mpf(r + h)))
-    if worst > 1e-15:
-        ctx.inconclusive_because(f'path oracle vs mpmath self-test off by {worst:.3g} (r+h)')
-    return {'samples': 40, 'max_abs_diff_over_r_plus_h': worst}
+        scale = mp.mpf(r + h) + mp.sqrt(sum(x * x for x in w))
+        # tangent-like rays: compare in the sqrt sense through the enclosure width
+        slack = mp.mpf(float(res['L_out'] - res['L_in'])) * mp.mpf('1e-3')
+        worst = max(worst, float(max(mp.mpf(0), abs(mp.mpf(got) - want) - slack) / scale))
+    if worst > 1e-17:
+        ctx.inconclusive_because(f'path oracle vs mpmath self-test off by {worst:.3g} (|p-b|+r+h)')
+    return {'samples': n_cases, 'max_abs_diff_over_scale': worst}
 
 
 def _safe(st, name, f):
